@@ -253,8 +253,14 @@ fn kamino(r: &mut Report, g: &mut G) {
     res.available_amount = cliff_u64(g);
     let borrowed: u128 = (cliff_u64(g) as u128) << g.gen_range(0..64);
     let fees: u128 = if g.gen_bool(0.7) { 0 } else { (cliff_u64(g) as u128) << g.gen_range(0..40) };
+    // the three fee buckets that are not depositors' money (protocol, referrer, pending referrer)
+    let fee_part = |g: &mut G| -> u128 { if g.gen_bool(0.6) { 0 } else { (cliff_u64(g) as u128) << g.gen_range(0..40) } };
+    let (f_ref, f_pend) = (fee_part(g), fee_part(g));
     res.borrowed_amount_sf = sf60(borrowed);
     res.accumulated_protocol_fees_sf = sf60(fees);
+    res.accumulated_referrer_fees_sf = sf60(f_ref);
+    res.pending_referrer_fees_sf = sf60(f_pend);
+    let fees = fees.saturating_add(f_ref).saturating_add(f_pend);
     res.mint_total_supply = cliff_u64(g);
     res.mint_decimals = [0u64, 6, 6, 9, 9, 12, 19, 23, 24, 255][g.gen_range(0..10)];
     res.slot = cliff_u64(g);
